@@ -458,7 +458,12 @@ type QOpts struct {
 	// OnRow is called after each delivered row with its index; returning
 	// false stops the scan.
 	OnRow func(i int, row *QRow) bool
+	// ErrAt > 0: the consumer fails with an error of its own when it receives
+	// its ErrAt-th row
+	ErrAt int
 }
+
+var errConsumer = fmt.Errorf("simulated consumer failure")
 
 func keyKVs(m map[string]interface{}) []KV {
 	kvs := make([]KV, 0, len(m))
@@ -535,6 +540,9 @@ func (p *Prepared) Run(o QOpts) (res *QResult) {
 			more = o.OnRow(i, &r)
 		}
 		i++
+		if o.ErrAt > 0 && i >= o.ErrAt {
+			return false, errConsumer
+		}
 		return more, nil
 	})
 	res.Err = err
